@@ -442,6 +442,54 @@ pub fn run(rep: &Arc<Report>) {
             }
         }
     });
+    // long payloads: every text / byte position x dialect x filler pattern x length around the powers of two up to 4096
+    // (thorough: 65537) - anything keyed on the size of the value or of its escaped form (truncation, chunking, a width in a
+    // format string) sees a length on both sides of its threshold, with an escape pair straddling it in either phase.
+    // Not minimised character by character: lengths are tried in ascending order and the first failing one is reported.
+    let mut lens: Vec<usize> = vec![63, 64, 65, 255, 256, 257, 1023, 1024, 1025, 2047, 2048, 2049, 4095, 4096, 4097];
+    if rep.thorough() {
+        lens.extend([16383, 16384, 16385, 65535, 65536, 65537]);
+    }
+    let text_fillers: [&str; 6] = ["a", "'", "\\", "\u{e9}", "a'", "'a"];
+    let byte_fillers: [&[u8]; 3] = [&[0x0a], &[0x27, 0x00], &[0x5c, 0xff, 0x0f]];
+    let long_cases = Counter::new();
+    let mut long_jobs: Vec<(usize, Dialect, usize)> = vec![];
+    for (pi, p) in poss.iter().enumerate() {
+        if p.kind == Kind::Char {
+            continue;
+        }
+        for &d in p.dialects {
+            let nf = if p.kind == Kind::Text { text_fillers.len() } else { byte_fillers.len() };
+            for f in 0..nf {
+                long_jobs.push((pi, d, f));
+            }
+        }
+    }
+    crate::util::par_items(&long_jobs, |_w, (pi, d, f)| {
+        let p = &poss[*pi];
+        for &len in &lens {
+            let lit = if p.kind == Kind::Text {
+                Lit::Text(text_fillers[*f].chars().cycle().take(len).collect())
+            } else {
+                Lit::Bytes(byte_fillers[*f].iter().copied().cycle().take(len).collect())
+            };
+            long_cases.inc();
+            evals.inc();
+            if let Err((sig, det)) = check_one(*pi, p, *d, &lit, &engine_runs) {
+                rep.raw_failures.inc();
+                let filler = if p.kind == Kind::Text { show(text_fillers[*f]) } else { format!("{:02x?}", byte_fillers[*f]) };
+                let det: String = det.chars().take(600).collect();
+                rep.violation(Violation {
+                    key: format!("{}|{}|{}|long-payload {} x {}", p.name, d.name(), sig, filler, len),
+                    what: format!("{} on {}: value of {} repetitions of {}: {}", p.name, d.name(), len, filler, det),
+                    case: json!({"position": p.name, "kind": format!("{:?}", p.kind), "dialect": d.name(), "lit": lit.to_json()}),
+                });
+                break;
+            }
+        }
+    });
+    rep.set("long_payload_cases", json!(long_cases.get()));
+    rep.set("long_payload_lengths", json!(lens));
     rep.set("alphabet", json!(alphabet.iter().map(|c| show(&c.to_string())).collect::<Vec<_>>()));
     rep.set("max_len", json!(n));
     rep.set("positions", json!(poss.iter().map(|p| format!("{}/{:?}", p.name, p.kind)).collect::<Vec<_>>()));
